@@ -45,20 +45,50 @@ func randOrder(r *Rand) spec.Order {
 	}
 }
 
+// otherFields returns up to n Message.Field keys of the program that are not in avoid.
+func otherFields(p *spec.Program, avoid []string, n int) []string {
+	av := map[string]bool{}
+	for _, a := range avoid {
+		av[a] = true
+	}
+	var out []string
+	for _, m := range p.Messages {
+		for _, f := range m.Fields {
+			k := m.Name + "." + f.Name
+			if f.Embed || f.Oneof != "" || av[k] {
+				continue
+			}
+			out = append(out, k)
+			if len(out) == n {
+				return out
+			}
+		}
+	}
+	return out
+}
+
 // decoy returns a config whose dual option `name` carries a different (wrong) value.
-func decoy(c spec.Config, name string) spec.Config {
+func decoy(p *spec.Program, c spec.Config, name string) spec.Config {
 	d := c.Clone()
 	switch name {
 	case "types":
-		d.Types = append([]string{}, c.Types[:len(c.Types)/2]...)
+		d.Types = append([]string{}, c.Types[:(len(c.Types)+1)/2]...)
+		if len(d.Types) == len(c.Types) { // a single root: select another message instead
+			for _, m := range p.Messages {
+				if m.Name != c.Types[0] && len(m.Fields) > 0 {
+					d.Types = []string{m.Name}
+					break
+				}
+			}
+		}
 	case "exclude_fields":
-		d.ExcludeFields = []string{"Sink.Name", "Leaf.Str"}
+		d.ExcludeFields = otherFields(p, append(append([]string{}, c.ExcludeFields...), excludedUnsafe(p)...), 2)
 	case "computed_fields":
-		d.ComputedFields = []string{"Sink.On"}
+		d.ComputedFields = otherFields(p, c.ComputedFields, 1)
 	case "required_fields":
-		d.RequiredFields = []string{"Sink.On", "Leaf.Flag"}
+		d.RequiredFields = otherFields(p, c.RequiredFields, 2)
 	case "sensitive_fields":
-		d.SensitiveFields = []string{"Sink.Name"}
+		d.SensitiveFields = otherFields(p, c.SensitiveFields, 1)
 	case "default_package_name":
 		d.DefaultPackageName = "decoy.example/pkg"
 	case "target_package_name":
@@ -71,10 +101,23 @@ func decoy(c spec.Config, name string) spec.Config {
 	return d
 }
 
+// excludedUnsafe lists fields whose exclusion would leave a message without fields (never used as decoys).
+func excludedUnsafe(p *spec.Program) []string {
+	var out []string
+	for _, m := range p.Messages {
+		if len(m.Fields) <= 2 {
+			for _, f := range m.Fields {
+				out = append(out, m.Name+"."+f.Name)
+			}
+		}
+	}
+	return out
+}
+
 // mergeYAMLDecoy renders: YAML from the decoy config (all dual options on YAML), CLI from the truth
 // for option `name` only.
-func precedenceRun(truth spec.Config, name string) RunSpec {
-	dec := decoy(truth, name)
+func precedenceRun(p *spec.Program, truth spec.Config, name string) RunSpec {
+	dec := decoy(p, truth, name)
 	y := dec.Render(allOn(spec.ChYAML), nil)
 	split := allOn(spec.ChNone)
 	split[name] = spec.ChCLI
@@ -134,7 +177,7 @@ func C16Cases(p *spec.Program, seed uint64, tier string, nSplits int) ([]*Case, 
 		}
 		// precedence
 		for _, d := range spec.DualOptions {
-			add("cli-precedence:"+d.Name, ref, precedenceRun(cfg, d.Name), Expect{Kind: "identical-file"})
+			add("cli-precedence:"+d.Name, ref, precedenceRun(p, cfg, d.Name), Expect{Kind: "identical-file"})
 		}
 	}
 
@@ -175,7 +218,11 @@ func C16Cases(p *spec.Program, seed uint64, tier string, nSplits int) ([]*Case, 
 	}
 
 	// --- configuration file that cannot be parsed
-	torn := full[:strings.Index(full, "name_overrides:")] + "name_overrides: {\"Naming.Overridden\": \"renamed\", \"Leaf.Flag\n"
+	tornAt := strings.Index(full, "name_overrides:")
+	if tornAt < 0 {
+		tornAt = len(full)
+	}
+	torn := full[:tornAt] + "name_overrides: {\"Naming.Overridden\": \"renamed\", \"Leaf.Flag\n"
 	garbage := "\x00\x01\x02types:\xff\xfe[\x80"
 	tabbed := "types:\n\t- Sink\n\t- Leaf\nsort:\ttrue\n"
 	unterminated := full + "validators: [\"a\", \n"
@@ -192,7 +239,7 @@ func C16Cases(p *spec.Program, seed uint64, tier string, nSplits int) ([]*Case, 
 		"name-overrides-is-seq": "name_overrides: [\"a\", \"b\"]\n",
 		"time-type-is-seq":      "time_type: [\"x\"]\n",
 		"injected-is-scalar":    "injected_fields: 5\n",
-		"validators-is-scalar":  "validators:\n  \"Sink.Name\": {\"a\": \"b\"}\n",
+		"validators-is-scalar":  "validators:\n  \"Some.Field\": {\"a\": \"b\"}\n",
 	} {
 		// documented option types violated: the file is YAML but cannot be parsed as a configuration
 		content := "---\n" + line
